@@ -742,9 +742,12 @@ func (p *parser) primary(lhs ast.Expression) ast.Expression {
 			}
 		}
 	default:
-		p.err(ddperror.SYN_UNEXPECTED_TOKEN, p.previous().Range, ddperror.MsgGotExpected(p.previous().Literal, "ein Literal", "ein Name"))
+		msg := ddperror.MsgGotExpected(p.previous().Literal, "ein Literal", "ein Name")
+		p.err(ddperror.SYN_UNEXPECTED_TOKEN, p.previous().Range, msg)
 		lhs = &ast.BadExpr{
-			Err: p.lastError,
+			// not p.lastError: in panic mode that is an earlier error somewhere else in the file,
+			// and the range of this expression (and of every expression around it) is taken from Err
+			Err: ddperror.New(ddperror.SYN_UNEXPECTED_TOKEN, ddperror.LEVEL_ERROR, p.previous().Range, msg, p.module.FileName),
 			Tok: *tok,
 		}
 	}
